@@ -1,6 +1,7 @@
 import HkModel.Drive.Queue
 import HkModel.Drive.Dispatch
 import HkModel.Drive.Egress
+import HkModel.Drive.Route
 /-! `hkdriver <mode>`: reads protocol lines on stdin, answers one line per input line. -/
 open Hk
 
@@ -36,6 +37,7 @@ def main (args : List String) : IO UInt32 := do
     return 0
   | ["dispatch"] => runPure DriveDispatch.processLine
   | ["egress"] => runPure DriveEgress.processLine
+  | ["ingress"] => runPure DriveRoute.processLine
   | _ =>
     IO.eprintln "usage: hkdriver <mode>"
     return 2
